@@ -400,3 +400,82 @@ def origin_calls(body, place, _seen=None, depth=0):
             elif k in ("ref", "refmut", "rawptr"):
                 out |= origin_calls(body, st["p"], _seen, depth + 1)
     return out
+
+
+def expr_tree(body, op, defs=None, depth=0):
+    """Normalised expression tree of an operand: single-definition locals are
+    expanded through copies, casts, arithmetic and calls (callee name + args)."""
+    defs = defs if defs is not None else cfg.defs_of(body)
+    c = cfg.op_const(op)
+    if c is not None:
+        return ("const", c.get("i", c.get("b", c.get("s", "?"))))
+    p_ = cfg.op_place(op)
+    if p_ is None:
+        return ("?",)
+    l = cfg.place_local(p_)
+    proj = ".".join(x for x in cfg.place_proj(p_) if x != "*")
+    ds = defs.get(l, [])
+    name = body.var_name(l)
+    if depth > 10 or len(ds) != 1:
+        return ("var", name or "_", proj)
+    _bi, st, is_term = ds[0]
+    if is_term:
+        if st.get("k") == "call":
+            return ("call", cname(st)) + tuple(expr_tree(body, a, defs, depth + 1) for a in st.get("args", []))
+        return ("var", name or "_", proj)
+    k = st.get("k")
+    if proj and not (k == "bin" and (st.get("op") or "").endswith("WithOverflow") and proj.startswith("f0")):
+        return ("proj", proj, name or "")
+    if k == "use":
+        return expr_tree(body, st["ops"][0], defs, depth + 1)
+    if k == "cast":
+        return ("cast", expr_tree(body, st["ops"][0], defs, depth + 1))
+    if k in ("ref", "refmut"):
+        return expr_tree(body, "c" + st["p"], defs, depth + 1) if name is None else ("var", name, "")
+    if k == "bin":
+        op_ = (st.get("op") or "").replace("WithOverflow", "")
+        a, b = (expr_tree(body, o, defs, depth + 1) for o in st["ops"])
+        if op_ in ("Add", "Mul") and repr(b) < repr(a):
+            a, b = b, a
+        return (op_, a, b)
+    return (k or "?",)
+
+
+def render_expr(e):
+    if not isinstance(e, tuple):
+        return str(e)
+    h = e[0]
+    if h == "const":
+        return str(e[1])
+    if h == "var":
+        return (e[1] or "_") + ("." + e[2] if len(e) > 2 and e[2] else "")
+    if h == "proj":
+        return (e[2] or "_") + "." + e[1]
+    if h == "call":
+        return "%s(%s)" % (e[1], ", ".join(render_expr(x) for x in e[2:]))
+    if h == "cast":
+        return "cast(%s)" % render_expr(e[1])
+    return "%s(%s)" % (h, ", ".join(render_expr(x) for x in e[1:]))
+
+
+def dominating_conditions(body, block):
+    """Rendered conditions that hold on every path reaching `block`:
+    `T:<expr>` when the block is only reachable through the true edge of that
+    comparison, `F:<expr>` for the false edge."""
+    out = []
+    defs = cfg.defs_of(body)
+    for j in sorted(cfg.live_blocks(body)):
+        bs = cfg.bool_switch(body, j)
+        if not bs or bs.defn is None:
+            continue
+        if bs.def_is_term:
+            e = ("call", cname(bs.defn)) + tuple(expr_tree(body, a, defs, 1) for a in bs.defn.get("args", []))
+        elif bs.defn.get("k") == "bin":
+            e = (bs.defn.get("op"),) + tuple(expr_tree(body, o, defs, 1) for o in bs.defn["ops"])
+        else:
+            continue
+        if block not in cfg.reach(body, [0], cut_edges={(bs.block, bs.true_t)}) and block != bs.block:
+            out.append("T:" + render_expr(e))
+        elif block not in cfg.reach(body, [0], cut_edges={(bs.block, bs.false_t)}) and block != bs.block:
+            out.append("F:" + render_expr(e))
+    return out
